@@ -68,10 +68,22 @@ fn handle_client(stream: TcpStream, dbs: Arc<Databases>) {
                     buf = line;
                     Ok(n)
                 }
-                Err(_) => Err(std::io::Error::new(
-                    std::io::ErrorKind::InvalidData,
-                    "stream did not contain valid UTF-8",
-                )),
+                Err(_) => {
+                    // A line that is no text is no command, but it is a line: it is answered with
+                    // an error like every other line that cannot be a command
+                    match client
+                        .sender
+                        .clone()
+                        .try_send(String::from("error line is not valid UTF-8 \n"))
+                    {
+                        Ok(_) => (),
+                        _ => log::debug!("Error on sending and error request"),
+                    }
+                    Err(std::io::Error::new(
+                        std::io::ErrorKind::InvalidData,
+                        "stream did not contain valid UTF-8",
+                    ))
+                }
             }
         });
         stream.set_nonblocking(true).unwrap();
